@@ -42,17 +42,6 @@ def show_source(spec: dict) -> dict:
     return d
 
 
-def n_elems(spec: dict) -> int:
-    return sum(1 for m in spec["tl"] if m[1] == "N")
-
-
-def term_of(spec: dict) -> str | None:
-    for m in spec["tl"]:
-        if m[1] in "EC":
-            return m[1]
-    return None
-
-
 # ---------------------------------------------------------------------------------- running
 
 def new_lab() -> Lab:
@@ -70,10 +59,20 @@ def new_lab() -> Lab:
     return lab
 
 
-def run_pipeline(lab: Lab, make: Callable[[], Any], sub_at: float = SUB_AT) -> ProbeObserver:
-    """make() builds a FRESH observable inside the subscribing action; it is subscribed exactly once."""
+def run_pipeline(lab: Lab, make: Callable[[], Any], sub_at: float = SUB_AT, with_scheduler: bool = True) -> ProbeObserver:
+    """make() builds a FRESH observable inside the subscribing action; it is subscribed exactly once.
+    with_scheduler=False: subscribe(observer) without a scheduler argument, so that operators which schedule
+    internal steps fall back to their default scheduler (CurrentThreadScheduler trampoline)."""
     top = lab.observer("top", inner=False)
-    lab.at(sub_at, lambda: top.subscribe_to(make()))
+
+    def do_sub() -> None:
+        if with_scheduler:
+            top.subscribe_to(make())
+        else:
+            top.subscription = make().subscribe(top)
+            if top.pending_dispose:
+                top.dispose()
+    lab.at(sub_at, do_sub)
     lab.run()
     return top
 
